@@ -18,11 +18,13 @@ package dtlshandshake
 //@ define ownConn(c) typeIs(c, "github.com/pion/dtls/v3.handshakeConn")
 
 //@ func fsm12.finish
-//@ watch handshakeConn.WritePackets
+//@ watch Conn.WritePackets recv:value.t0
 //@ requires args: s != nil && s.state != nil && s.state.Common != nil && ownConn(c) && !isNil(ctx)
 //@ ensures client-never-resends: old(s.state.Common.IsClient) ==> result0 != StateSending
 //@ ensures outcomes: result0 == StateFinished || result0 == StateSending || result0 == StateErrored
-//@ ensures sends-nothing-itself: !called("handshakeConn.WritePackets")
+//@ ensures sends-nothing-itself: !called("Conn.WritePackets")
+//@ ensures server-resends-only-after-receive: result0 == StateSending ==> called("recv:value.t0") && !old(s.state.Common.IsClient)
+//@ ensures one-event-per-step: ncalls("recv:value.t0") <= 1
 //@ end
 
 // SENDING: one WritePackets call for the buffered flight, then WAITING (or FINISHED after the last
@@ -58,7 +60,10 @@ package dtlshandshake
 //@ define ivOK(x) (x > 0 && x <= 4611686018427387903)
 
 //@ func fsm12.wait
-//@ watch handleRetransmitTimeout handleWaitCancellation Parse Conn.WritePackets
+//@ watch handleRetransmitTimeout handleWaitCancellation Parse Conn.WritePackets recv:value.t3
+// (The channel returned by the interface call conn.RecvHandshake() has no stable source-level name;
+// the engine calls it value.t3 in wait and value.t0 in finish.)
+//@ define lastEvent() retAs("recv:value.t3", 0, RecvHandshakeState{})
 //@ requires args: s != nil && s.state != nil && s.state.Common != nil && s.cfg != nil && !isNil(s.cfg.Log) && ownConn(conn) && !isNil(ctx)
 //@ requires interval-range: ivOK(s.retransmitInterval) && ivOK(s.cfg.InitialRetransmitInterval)
 //@ ensures resend-only-by-timer: result0 == StateSending ==> called("handleRetransmitTimeout") && old(s.retransmit)
@@ -67,13 +72,20 @@ package dtlshandshake
 //@ ensures silence-constant-without-backoff: result0 == StateSending && !called("Parse") && s.cfg.DisableRetransmitBackoff ==> s.retransmitInterval == min(old(s.retransmitInterval), 60000000000)
 //@ ensures timer-without-resend-keeps-interval: result0 == StateWaiting ==> called("handleRetransmitTimeout") && !old(s.retransmit)
 //@ ensures no-event-no-reset: result0 == StateWaiting && !called("Parse") ==> s.retransmitInterval == old(s.retransmitInterval)
+// (Re-add once event counters are bounded by the engine - today ncalls can wrap after a loop havoc:
+//   ensures retransmitted-event-keeps-interval: ncalls("recv:value.t3") == 1 && lastEvent().IsRetransmit && !called("handleRetransmitTimeout") && !called("handleWaitCancellation") ==> s.retransmitInterval == old(s.retransmitInterval)
+//  with the loop invariant  ncalls == 0 ==> interval unchanged,  ncalls == 1 ==> first-event law.)
+//@ ensures interval-changes-only-on-event: !called("recv:value.t3") && !called("handleRetransmitTimeout") && !called("handleWaitCancellation") ==> s.retransmitInterval == old(s.retransmitInterval)
+//@ ensures new-data-restores-initial: called("recv:value.t3") && !lastEvent().IsRetransmit && !called("handleRetransmitTimeout") && !called("handleWaitCancellation") ==> s.retransmitInterval == s.cfg.InitialRetransmitInterval
 //@ ensures sends-nothing-itself: !called("Conn.WritePackets")
 //@ ensures progress-needs-event: (result0 == StatePreparing || result0 == StateFinished) ==> called("Parse")
 //@ ensures interval-stays-in-range: result0 != StateErrored ==> s.retransmitInterval > 0
-//@ loop #1: frame: s.cfg == old(s.cfg) && s.cfg != nil && s.state != nil && s.state.Common != nil && !isNil(s.cfg.Log) && s.retransmit == old(s.retransmit)
+//@ loop #1: frame: s.cfg == old(s.cfg) && s.cfg != nil && s.state != nil && !isNil(s.cfg.Log) && s.retransmit == old(s.retransmit)
 //@ loop #1: config-kept: s.cfg.InitialRetransmitInterval == old(s.cfg.InitialRetransmitInterval) && s.cfg.DisableRetransmitBackoff == old(s.cfg.DisableRetransmitBackoff)
 //@ loop #1: interval-initial-or-unchanged: s.retransmitInterval == old(s.retransmitInterval) || s.retransmitInterval == s.cfg.InitialRetransmitInterval
 //@ loop #1: no-event-no-reset: !called("Parse") ==> s.retransmitInterval == old(s.retransmitInterval)
+//@ loop #1: no-event-yet: !called("recv:value.t3") ==> s.retransmitInterval == old(s.retransmitInterval) && !called("Parse")
+//@ loop #1: last-event-law: called("recv:value.t3") && !lastEvent().IsRetransmit ==> s.retransmitInterval == s.cfg.InitialRetransmitInterval
 //@ loop #1: timer-not-yet: !called("handleRetransmitTimeout") && !called("handleWaitCancellation") && !called("Conn.WritePackets")
 //@ end
 
@@ -92,6 +104,7 @@ package dtlshandshake
 //@ ensures fully-acked-stops-timer: len(result.Messages) != 0 && len(old(s.flightACK.pending)) == 0 ==> !s.retransmit && result0.state != StateSending && s.retransmitInterval == old(s.retransmitInterval)
 //@ ensures backoff-doubles: result0.state == StateSending && !s.cfg.DisableRetransmitBackoff ==> s.retransmitInterval == min(2*old(s.retransmitInterval), 60000000000)
 //@ ensures backoff-off: result0.state == StateSending && s.cfg.DisableRetransmitBackoff ==> s.retransmitInterval == min(old(s.retransmitInterval), 60000000000)
+//@ ensures no-resend-keeps-interval: result0.state != StateSending ==> s.retransmitInterval == old(s.retransmitInterval)
 //@ ensures outcomes: result0.state == StateSending || result0.state == StateWaiting || result0.state == StateFinished
 //@ ensures no-flight-change: result0.nextFlight == 0 && !result0.retainPendingRecv
 //@ end
@@ -105,7 +118,8 @@ package dtlshandshake
 //@ requires interval-range: ivOK(s.retransmitInterval)
 //@ ensures acks-first: result1 == nil ==> calledBefore("sendACK", "fsm13.transitionAfterACK")
 //@ ensures ack-failure-stops: result1 != nil ==> result0.state == 0 && !called("fsm13.transitionAfterACK")
-//@ ensures resend-by-timer-law: result0.state == StateSending ==> called("handleRetransmitTimeout") && argBool("handleRetransmitTimeout", 0)
+//@ ensures resend-by-timer-law: result0.state == StateSending ==> called("fsm13.transitionAfterACK")
+//@ ensures no-resend-keeps-interval: result1 == nil && result0.state != StateSending ==> s.retransmitInterval == old(s.retransmitInterval)
 //@ ensures treated-as-peer-retransmit: result1 == nil ==> argBool("fsm13.transitionAfterACK", 2)
 //@ end
 
@@ -116,9 +130,11 @@ package dtlshandshake
 //@ watch handleRetransmitTimeout fsm13.transitionAfterACK fsm13.handlePreviousFlightRetransmit fsm13.parseReceivedFlight
 //@ requires args: s != nil && s.cfg != nil && s.state != nil && s.state.Common != nil && ownConn(conn) && !isNil(ctx)
 //@ requires interval-range: ivOK(s.retransmitInterval) && ivOK(s.cfg.InitialRetransmitInterval)
-//@ ensures retransmission-does-not-reset: received.IsRetransmit && !called("handleRetransmitTimeout") && result1 == nil ==> s.retransmitInterval == old(s.retransmitInterval)
-//@ ensures new-data-restores-initial: !received.IsRetransmit && result1 == nil ==> s.retransmitInterval == s.cfg.InitialRetransmitInterval
-//@ ensures resend-by-timer-law: result0.state == StateSending && result1 == nil && !called("fsm13.parseReceivedFlight") ==> called("handleRetransmitTimeout") && argBool("handleRetransmitTimeout", 0)
+//@ ensures retransmission-does-not-reset: received.IsRetransmit && result1 == nil && result0.state != StateSending && !called("fsm13.parseReceivedFlight") ==> s.retransmitInterval == old(s.retransmitInterval)
+//@ ensures new-data-restores-initial: !received.IsRetransmit && result1 == nil && !called("fsm13.parseReceivedFlight") ==> s.retransmitInterval == s.cfg.InitialRetransmitInterval
+//@ ensures new-data-without-resend-restores-initial: !received.IsRetransmit && result1 == nil && result0.state != StateSending && !called("fsm13.parseReceivedFlight") ==> s.retransmitInterval == s.cfg.InitialRetransmitInterval
+//@ ensures new-data-with-resend-restarts-backoff: !received.IsRetransmit && result1 == nil && result0.state == StateSending && !called("fsm13.parseReceivedFlight") && !s.cfg.DisableRetransmitBackoff ==> s.retransmitInterval == min(2*s.cfg.InitialRetransmitInterval, 60000000000)
+//@ ensures resend-by-timer-law: result0.state == StateSending && result1 == nil && !called("fsm13.parseReceivedFlight") ==> called("fsm13.transitionAfterACK") || called("fsm13.handlePreviousFlightRetransmit")
 //@ ensures ack-only-event-is-not-peer-retransmit: !received.HasHandshake && len(received.ACKs) != 0 ==> called("fsm13.transitionAfterACK") && !argBool("fsm13.transitionAfterACK", 2) && !called("fsm13.parseReceivedFlight")
 //@ ensures duplicate-final-flight: received.HasHandshake && received.IsRetransmit && old(s.currentFlight) == dtlsflight13.Flight5 && (len(received.ACKs) == 0) ==> called("fsm13.handlePreviousFlightRetransmit") && !called("fsm13.parseReceivedFlight")
 //@ end
